@@ -91,9 +91,13 @@ Proof.
   unfold decode_box_top. rewrite Hd. cbn [hname hsize hlen views bname blarge bplen].
   destruct (eqb_list name name_mdat) eqn:En.
   - destruct lazy.
-    + unfold decode_mdat_lazily, rs_seek_cur. cbn [hlen hsize rpos rorc].
+    + unfold decode_mdat_lazily, rs_seek_cur, i64n. cbn [hlen hsize rpos rorc].
+      replace (hdr_len large + plen <? 9223372036854775808) with true by lia.
       replace (Z.of_N (pos + hdr_len large) + (Z.of_N (hdr_len large + plen) - Z.of_N (hdr_len large)) <? 0)%Z
         with false by lia.
+      replace (9223372036854775807 <? Z.of_N (pos + hdr_len large) + (Z.of_N (hdr_len large + plen) - Z.of_N (hdr_len large)))%Z
+        with false by lia.
+      cbn [orb].
       replace (hdr_len large + plen - hdr_len large) with plen by lia.
       replace (8 <? hdr_len large) with large by (destruct large; reflexivity).
       fold (mdat_lazy pos large plen). rewrite S1.
@@ -108,7 +112,7 @@ Proof.
         rewrite Hm, S2. eexists o, _. split; [|split; reflexivity].
         f_equal. f_equal. f_equal. lia.
       * replace (hdr_len large + plen - hdr_len large) with plen by lia.
-        rewrite sub_length by lia. rewrite N.eqb_refl. cbn [rbind].
+        rewrite N.min_l by lia. rewrite sub_length by lia. rewrite N.eqb_refl. cbn [rbind].
         replace (8 <? hdr_len large) with large by (destruct large; reflexivity).
         fold (hdr_len large). 
         change (mkMdat pos (sub file (pos + hdr_len large) plen) 0 large) with (mdat_mem file pos large plen).
@@ -118,7 +122,7 @@ Proof.
     + eexists o, _. split; [|split; reflexivity].
       f_equal. f_equal. f_equal. lia.
     + replace (hdr_len large + plen - hdr_len large) with plen by lia.
-      rewrite sub_length by lia. rewrite N.eqb_refl.
+      rewrite N.min_l by lia. rewrite sub_length by lia. rewrite N.eqb_refl.
       eexists o, _. split; [|split; reflexivity]. reflexivity.
 Qed.
 
